@@ -21,6 +21,7 @@ func newCountedLock() *countedLock {
 }
 
 func (m *countedLock) Lock(ctx context.Context) bool {
+	simWaitUntil("cl.Lock", func() bool { return len(m.ch) < cap(m.ch) || ctx.Err() != nil })
 	// If the context is already cancelled don't even try to lock.
 	if ctx.Err() != nil {
 		return false
